@@ -1,1 +1,127 @@
-//! placeholder, filled in with the C17 reference (constants recomputed from the moduli)
+//! C17 reference: every derived constant recomputed from the modulus alone. The prime
+//! factorisations of p-1 are hard-coded only as CLAIMS; `FieldFacts::new` re-verifies them at
+//! every run (each factor passes Miller-Rabin, the product is re-multiplied).
+use crate::fld::{big, is_probable_prime, u, Fld};
+use num_bigint::BigUint;
+use num_traits::{One, Zero};
+
+pub struct FieldFacts {
+    pub name: &'static str,
+    pub f: Fld,
+    pub nbytes: usize,
+    pub bits: u64,
+    pub half: BigUint,
+    pub two_adicity: u32,
+    pub trace: BigUint,
+    pub half_trace: BigUint,
+    /// distinct prime factors of p-1
+    pub prime_factors: Vec<BigUint>,
+    /// 2^(8*nbytes) mod p
+    pub size_power_of_two: BigUint,
+    /// the conventional generator documented in utils/field_properties.py
+    pub conventional_generator: BigUint,
+    pub factorisation_verified: bool,
+}
+
+impl FieldFacts {
+    pub fn new(name: &'static str, p: BigUint, nbytes: usize, factors: &[(&str, u32)], conv_gen: u64) -> Self {
+        let f = Fld::new(p.clone());
+        let one = BigUint::one();
+        let mut prod = one.clone();
+        let mut ok = true;
+        let mut primes = vec![];
+        for (s, e) in factors {
+            let q = big(s);
+            ok &= is_probable_prime(&q);
+            for _ in 0..*e {
+                prod *= &q;
+            }
+            primes.push(q);
+        }
+        ok &= prod == &p - &one;
+        ok &= is_probable_prime(&p);
+        FieldFacts {
+            name,
+            nbytes,
+            bits: p.bits(),
+            half: (&p - &one) >> 1,
+            two_adicity: f.s,
+            trace: f.t.clone(),
+            half_trace: (&f.t - &one) >> 1,
+            prime_factors: primes,
+            size_power_of_two: (&one << (8 * nbytes)) % &p,
+            conventional_generator: u(conv_gen),
+            factorisation_verified: ok,
+            f,
+        }
+    }
+    pub fn fq() -> Self {
+        Self::new(
+            "Fq",
+            big(crate::spec::Q_DEC),
+            32,
+            &[("2", 47), ("3", 1), ("5", 1), ("7", 1), ("13", 1), ("499", 1), ("958612291309063373", 1), ("9586122913090633729", 2)],
+            22,
+        )
+    }
+    pub fn fr() -> Self {
+        Self::new(
+            "Fr",
+            big(crate::spec::R_DEC),
+            32,
+            &[("2", 1), ("1553", 1), ("1282495723", 1), ("4153589585267", 1), ("127594226306900005382664386181896662579473947460767", 1)],
+            5,
+        )
+    }
+    pub fn fp() -> Self {
+        Self::new(
+            "Fp",
+            big(crate::spec::P_HEX),
+            48,
+            &[
+                ("2", 46), ("3", 1), ("7", 1), ("13", 1), ("53", 1), ("409", 1), ("499", 1), ("2557", 1), ("6633514200929891813", 1),
+                ("73387170334035996766247648424745786170238574695861388454532790956181", 1),
+            ],
+            15,
+        )
+    }
+    /// g generates F_p^* (complete decision from the certified factorisation)
+    pub fn is_generator(&self, g: &BigUint) -> bool {
+        let f = &self.f;
+        if (g % &f.p).is_zero() {
+            return false;
+        }
+        let pm1 = &f.p - 1u32;
+        self.prime_factors.iter().all(|q| !f.pow(g, &(&pm1 / q)).is_one())
+    }
+    /// x has multiplicative order exactly 2^s
+    pub fn has_order_two_pow_s(&self, x: &BigUint) -> bool {
+        let f = &self.f;
+        let e = BigUint::one() << (self.two_adicity - 1);
+        let h = f.pow(x, &e);
+        h == &f.p - 1u32
+    }
+}
+
+/// BLS12 family: cofactor of G1 as polynomial in the curve parameter x: h1 = (x-1)^2 / 3
+pub fn bls12_h1(x: &BigUint) -> BigUint {
+    let xm1 = x - 1u32;
+    (&xm1 * &xm1) / 3u32
+}
+/// BLS12 family: r(x) = x^4 - x^2 + 1
+pub fn bls12_r(x: &BigUint) -> BigUint {
+    let x2 = x * x;
+    &x2 * &x2 - &x2 + 1u32
+}
+/// BLS12 family: p(x) = (x-1)^2 * r(x) / 3 + x
+pub fn bls12_p(x: &BigUint) -> BigUint {
+    let xm1 = x - 1u32;
+    (&xm1 * &xm1 * bls12_r(x)) / 3u32 + x
+}
+/// BLS12 family: cofactor of G2, h2 = (x^8 - 4x^7 + 5x^6 - 4x^4 + 6x^3 - 4x^2 - 4x + 13) / 9
+pub fn bls12_h2(x: &BigUint) -> BigUint {
+    let p = |e: u32| x.pow(e);
+    let pos = p(8) + u(5) * p(6) + u(6) * p(3) + u(13);
+    let neg = u(4) * p(7) + u(4) * p(4) + u(4) * p(2) + u(4) * x;
+    (pos - neg) / 9u32
+}
